@@ -338,6 +338,23 @@ var indexTranslations = map[string]string{
 	"es": "Índice",
 	"fr": "Index"}
 
+// customFileNames tells whether chapter ids are wanted as file names.
+func (exp *exporter) customFileNames() bool {
+	useID, ok := exp.Context().Params["xhtml-chap-custom-filenames"]
+	return ok && useID != "" && useID != "0"
+}
+
+// chapName returns the name identifying current part or chapter in file
+// names: its id if custom file names are wanted and the id can be one (a path
+// separator in it would place the file elsewhere), its numbers otherwise.
+func (exp *exporter) chapName() string {
+	ctx := exp.Context()
+	if exp.customFileNames() && ctx.ID != "" && !strings.ContainsRune(ctx.ID, '/') {
+		return ctx.ID
+	}
+	return fmt.Sprintf("%d-%02d", ctx.Toc.PartCount, ctx.Toc.ChapterCount)
+}
+
 func (exp *exporter) xhtmlFileOutputChange(title string) {
 	ctx := exp.Context()
 	if ctx.Format == "xhtml" && exp.xhtmlNavigationText.Len() > 0 {
@@ -350,17 +367,10 @@ func (exp *exporter) xhtmlFileOutputChange(title string) {
 	if !ok {
 		fprefix = "body"
 	}
-	idText := ""
-	useID, ok := ctx.Params["xhtml-chap-custom-filenames"]
-	if ok && (useID != "" && useID != "0") {
-		idText = ctx.ID
+	if exp.customFileNames() && strings.ContainsRune(ctx.ID, '/') {
+		ctx.Error("id contains a path separator and cannot be used as file name:", ctx.ID)
 	}
-	var chapname string
-	if idText != "" {
-		chapname = idText
-	} else {
-		chapname = fmt.Sprintf("%d-%02d", ctx.Toc.PartCount, ctx.Toc.ChapterCount)
-	}
+	chapname := exp.chapName()
 	var outFile string
 	switch ctx.Format {
 	case "epub":
